@@ -48,7 +48,7 @@ build() { # $1 = default|unimock
 }
 
 run_part() { # $1 = build, $2 = part
-  local limit=50; [ "$TIER" = thorough ] && limit=900
+  local limit=75; [ "$TIER" = thorough ] && limit=900   # search is wall-capped at 12 s / 240 s; the slack absorbs machine stalls
   timeout -k 5 $limit "$BIN/gensim-$1" check "$ID" --tier "$TIER" --verif "$VERIF" --part "$2"
   local code=$?
   if [ $code -ge 124 ]; then
